@@ -2,6 +2,8 @@ import Pyunicorn.Lemmas.Coupling
 import Pyunicorn.Lemmas.CouplingStat
 import Pyunicorn.Lemmas.Coupling2
 import Pyunicorn.Lemmas.CouplingQuantile
+import Pyunicorn.Lemmas.CouplingKnn
+import Pyunicorn.Lemmas.Coupling3
 import Pyunicorn.Generated.ArithC10
 /-!
 # C10 — Similarity and coupling estimates equal reference statistics
@@ -829,5 +831,256 @@ theorem arith_pure (total_time tau_max t : Int) (_h0 : 0 ≤ t) (h1 : t ≤ 2 * 
 open Pyunicorn.Generated.ArithC10 in
 theorem arith_pure_lag (c : Nat → Rat) (tauMax : Nat) :
     (pureMaxEntry c tauMax).2 = pureLagOut ((pureMaxScan c (2 * tauMax + 1)).2 : Int) (tauMax : Int) := rfl
+
+/-! # Round 3 -/
+
+/-! ## the nearest-neighbour kernel `_get_nearest_neighbors` -/
+
+/-- the early-exit scan over the dimensions decides "maximum-metric distance `< eps`" -/
+theorem knn_cube_test (arr : Nat → Nat → Rat) (i t : Nat) (eps : Rat) (dim : Nat) (he : 0 < eps) :
+    inCube arr i t eps dim = true ↔ jointD arr i dim t < eps :=
+  inCube_iff_jointD arr i t eps dim he
+
+/-- "distance of the `k`-th nearest neighbour" (`IsKth`: a distance that occurs, at most `k` samples
+strictly closer, more than `k` at most that far; the sample itself counts as the 0-th) determines
+the value uniquely -/
+theorem knn_kth_unique (D : Nat → Rat) (T k : Nat) (v w : Rat) (hv : IsKth D T k v)
+    (hw : IsKth D T k w) : v = w := IsKth_unique D T k v w hv hw
+
+/-- **bounded insertion sort**: whatever the content of `dxyzarray` left by the previous sample,
+after `n` distances slot `p < min n (k+1)` holds the `p`-th order statistic of those distances
+(only `k+1` slots, larger values are dropped, the shifting loop never reads an unwritten slot) -/
+theorem knn_sort_slot (k : Nat) (x : Nat → Rat) (n : Nat) (A0 : List Rat) (h0 : A0.length = k + 1)
+    (p : Nat) (hp : p < min n (k + 1)) : IsKth x n p (rd (sortSeq k x n A0) p) :=
+  sortSeq_kth k x n A0 h0 p hp
+
+/-- **growing cube**: whatever the start width `eps0 > 0` (a floating-point `(k/T)**(1/dim)` in the
+code), the number of doublings and the stale contents of `indexfound` / `dxyzarray`: when the
+`while n <= k` loop exits, more than `k` samples are in the cube and `epsmax = dxyzarray[k]` is the
+distance of the `k`-th nearest neighbour among **all** `T` samples -/
+theorem knn_epsmax (arr : Nat → Nat → Rat) (i T dim k fuel : Nat) (eps0 eps : Rat)
+    (idx0 idx : Nat → Nat) (n : Nat) (A0 : List Rat) (hA0 : A0.length = k + 1) (h0 : 0 < eps0)
+    (h : growLoop arr i T dim k fuel eps0 idx0 = some (eps, idx, n)) :
+    k < n ∧ IsKth (jointD arr i dim) T k (rd (sortLoop arr i dim k idx n A0) k) :=
+  knn_epsmax_kth arr i T dim k fuel eps0 eps idx0 idx n A0 hA0 h0 h
+
+/-- the growing-cube loop exits after finitely many doublings whenever `k < T` … -/
+theorem knn_terminates (arr : Nat → Nat → Rat) (i T dim k : Nat) (eps0 : Rat) (idx0 : Nat → Nat)
+    (h0 : 0 < eps0) (hk : k < T) : ∃ fuel, (growLoop arr i T dim k fuel eps0 idx0).isSome = true :=
+  growLoop_terminates arr i T dim k eps0 idx0 h0 hk
+
+/-- … and **never** for `T ≤ k`: the compiled loop does not terminate on such a call (the public
+methods must refuse `k ≥ T - tau_max`; see the defect list) -/
+theorem knn_never_terminates (arr : Nat → Nat → Rat) (i T dim k fuel : Nat) (eps0 : Rat)
+    (idx0 : Nat → Nat) (hk : T ≤ k) : growLoop arr i T dim k fuel eps0 idx0 = none :=
+  growLoop_never arr i T dim k fuel eps0 idx0 hk
+
+/-- the last loop: `k_z` counts the samples with `dz < epsmax`, `k_xz` / `k_yz` those that
+additionally have `dx < epsmax` / `dy < epsmax` (strict, maximum metric per subspace) -/
+theorem knn_counts (arr : Nat → Nat → Rat) (i dimx dimy dim : Nat) (e : Rat) (T : Nat) :
+    countLoop arr i dimx dimy dim e T =
+      (countTo T (fun j => decide (dzOf arr i dimx dimy dim j < e) && decide (dxOf arr i dimx j < e)),
+       countTo T (fun j => decide (dzOf arr i dimx dimy dim j < e) && decide (dyOf arr i dimx dimy j < e)),
+       countTo T (fun j => decide (dzOf arr i dimx dimy dim j < e))) :=
+  countLoop_eq arr i dimx dimy dim e T
+
+/-- **the whole kernel**: if the call returns, then for every sample `i` the triple
+`(k_xz[i], k_yz[i], k_z[i])` is the triple of subspace counts at the `k`-th nearest-neighbour
+distance of sample `i` — independent of the start width, of the number of doublings and of what
+the work arrays held from the previous sample -/
+theorem knn_kernel (arr : Nat → Nat → Rat) (T dim dimx dimy k fuel : Nat) (eps0 : Rat)
+    (h0 : 0 < eps0) (m : Nat) (st : KnnState)
+    (h : knnAll arr T dim dimx dimy k fuel eps0 m = some st) :
+    st.out.length = m ∧ ∀ i, i < m → ∃ v, IsKth (jointD arr i dim) T k v ∧
+      st.out[i]? = some (countLoop arr i dimx dimy dim v T) :=
+  (knnAll_spec arr T dim dimx dimy k fuel eps0 h0 m st h).2
+
+example : ((knnAll (fun d t => [[0, 1, 3, 7], [0, 2, 1, 5]].getD d [] |>.getD t (0 : Rat))
+    4 2 1 1 1 8 (1 / 2) 4).map (·.out)) = some [(2, 2, 4), (2, 2, 4), (1, 3, 4), (1, 2, 4)] := by
+  decide +kernel
+example : sortSeq 1 (fun j => [5, 2, 7, 1, 3].getD j (0 : Rat)) 5 [99, 99] = [1, 2] := by
+  decide +kernel
+
+/-! ## pure-Python class: pair loops, `only_tri`, `_calculate_mi` -/
+
+/-- without `only_tri` every cell `i, j < N` of a lag slice receives the value of the ordered pair -/
+theorem tri_off_entry (val : Nat → Nat → Nat → Rat) (N tauMax t i j : Nat) (hi : i < N) (hj : j < N) :
+    triAll val false N tauMax t i j = val t i j := by
+  unfold triAll
+  simp only [Bool.false_eq_true, if_false, pairMat_apply, if_pos (And.intro hi hj)]
+
+/-- **`only_tri`, mode `'all'`**: the upper triangle holds the computed pair, the lower triangle the
+same pair at the **reversed lag index** `2 tau_max - t`, the diagonal is never computed (`0`) -/
+theorem tri_all_entry (val : Nat → Nat → Nat → Rat) (N tauMax t i j : Nat) (hij : i < j) (hj : j < N) :
+    triAll val true N tauMax t i j = val t i j ∧
+      triAll val true N tauMax t j i = val (2 * tauMax - t) i j ∧
+      triAll val true N tauMax t i i = 0 := by
+  unfold triAll
+  simp only [if_true, pairMat_apply]
+  refine ⟨?_, ?_, ?_⟩
+  · rw [if_pos ⟨hij, hj⟩, if_neg (fun h => by omega)]; ring
+  · rw [if_neg (fun h => by omega), if_pos ⟨hij, hj⟩]; ring
+  · simp
+
+/-- **`only_tri`, mode `'sum'`**: `corrmat[0][i,j] = s₀(i,j)`, `corrmat[0][j,i] = s₁(i,j)`,
+`corrmat[1]` is the transpose of `corrmat[0]` -/
+theorem tri_sum_entry (v0 v1 : Nat → Nat → Rat) (N i j : Nat) (hij : i < j) (hj : j < N) :
+    (triSum v0 v1 true N).1 i j = v0 i j ∧ (triSum v0 v1 true N).1 j i = v1 i j ∧
+      (triSum v0 v1 true N).2 i j = v1 i j ∧ (triSum v0 v1 true N).2 j i = v0 i j := by
+  unfold triSum
+  simp only [if_true, pairMat_apply]
+  refine ⟨?_, ?_, ?_, ?_⟩
+  · rw [if_pos ⟨hij, hj⟩, if_neg (fun h => by omega)]; ring
+  · rw [if_neg (fun h => by omega), if_pos ⟨hij, hj⟩]; ring
+  · rw [if_neg (fun h => by omega), if_pos ⟨hij, hj⟩]; ring
+  · rw [if_pos ⟨hij, hj⟩, if_neg (fun h => by omega)]; ring
+
+/-- **`only_tri`, mode `'max'`**: the value matrix is symmetric, the lag matrix antisymmetric -/
+theorem tri_max_entry (v0 v1 : Nat → Nat → Rat) (N i j : Nat) (hij : i < j) (hj : j < N) :
+    (triMax v0 v1 true N).1 i j = v0 i j ∧ (triMax v0 v1 true N).1 j i = v0 i j ∧
+      (triMax v0 v1 true N).2 i j = v1 i j ∧ (triMax v0 v1 true N).2 j i = -v1 i j := by
+  unfold triMax
+  simp only [if_true, pairMat_apply]
+  refine ⟨?_, ?_, ?_, ?_⟩
+  · rw [if_pos ⟨hij, hj⟩, if_neg (fun h => by omega)]; ring
+  · rw [if_neg (fun h => by omega), if_pos ⟨hij, hj⟩]; ring
+  · rw [if_pos ⟨hij, hj⟩, if_neg (fun h => by omega)]; ring
+  · rw [if_neg (fun h => by omega), if_pos ⟨hij, hj⟩]; ring
+
+example : (List.range 3).map (fun i => (List.range 3).map (triAll (fun t i j => t * 100 + i * 10 + j) true 3 1 0 i))
+    = [[0, 1, 2], [201, 0, 12], [202, 212, 0]] := by decide +kernel
+
+/-- **`_calculate_mi`**: after the walk, cell `[a, b]` of `hist2D` is the number of samples `k` with
+symbol `a` in the reference window (`tau_max`) of series `i` and symbol `b` in window `t` of
+series `j` … -/
+theorem pure_mi_hist_counts (S : Nat → Nat → Nat → Nat) (tauMax cr bins i j t a b : Nat)
+    (hb : b < bins) (hS : ∀ k, S t j k < bins) :
+    pureMiHist S tauMax cr bins i j t (fun _ => 0) (a * bins + b) =
+      countTo cr (fun k => decide (S tauMax i k = a) && decide (S t j k = b)) :=
+  pureMiHist_counts S tauMax cr bins i j t a b hb hS
+
+/-- … and the entropy loop leaves the shared histogram empty, so every `(i, j, t)` starts from `0` -/
+theorem pure_mi_hist_clean (S : Nat → Nat → Nat → Nat) (tauMax cr bins i j t : Nat)
+    (hS : ∀ t i k, S t i k < bins) (c : Nat) :
+    pureMiReset bins (pureMiHist S tauMax cr bins i j t (fun _ => 0)) c = 0 :=
+  pureMiReset_clean S tauMax cr bins i j t hS c
+
+/-- **`_calculate_mi`, mode `'max'`**: the summary is the first window with the largest *positive*
+estimate and its **signed** lag `t - tau_max`; `(0, 0)` if no estimate is positive (unlike
+`_calculate_cc`, whose default lag is `-tau_max`) -/
+theorem pure_mi_max_entry (c : Nat → Rat) (tauMax n : Nat) :
+    pureMiMaxScan c tauMax n =
+      ((maxScan c n).1, if 0 < (maxScan c n).1 then ((maxScan c n).2 : Int) - (tauMax : Int) else 0) :=
+  (pureMiMaxScan_eq c tauMax n).1
+
+example : pureMiMaxScan (fun t => [1, 3, 3, 2, 0].getD t 0) 2 5 = (3, -1) := by decide +kernel
+example : pureMiMaxScan (fun t => [0, -1, 0].getD t 0) 1 3 = (0, 0) := by decide +kernel
+
+/-! ## surrogate matrices of the pure-Python class: invariants for every draw stream -/
+
+/-- **the order of the drawn sample times does not matter**: re-ordering the draw `perm` by any
+permutation `σ` of the sample positions leaves every entry of `time_surrogate_for_cc` unchanged -/
+theorem time_surrogate_order_free (x : Nat → Nat → Rat) (perm σ : Nat → Nat) (sr tauMax t i j : Nat)
+    (hσ : PermOn σ sr) :
+    timeSurrSq x (fun s => perm (σ s)) sr tauMax t i j = timeSurrSq x perm sr tauMax t i j := by
+  unfold timeSurrSq
+  exact pearsonSq_perm sr (fun s => x i (perm s)) (fun s => x j (perm s + t - tauMax)) σ hσ
+
+/-- **a full sample reproduces the estimate**: when the draw covers all of
+`range(tau_max, T - tau_max)` (`sample_range ≥ T - 2 tau_max`), `time_surrogate_for_cc` equals
+`cross_correlation` of the same object entry by entry, for every draw -/
+theorem time_surrogate_full (x : Nat → Nat → Rat) (π : Nat → Nat) (T tauMax t i j : Nat)
+    (hπ : PermOn π (T - 2 * tauMax)) :
+    timeSurrSq x (fun s => tauMax + π s) (T - 2 * tauMax) tauMax t i j = pureXcorrSq x T tauMax t i j := by
+  unfold timeSurrSq pureXcorrSq
+  rw [← pearsonSq_perm (T - 2 * tauMax) (fun k => x i (tauMax + k)) (fun k => x j (t + k)) π hπ]
+  apply pearsonSq_congr
+  · intro k _; rfl
+  · intro k _
+    have : tauMax + π k + t - tauMax = t + π k := by omega
+    simp only [this]
+
+/-- `shuffled_surrogate_for_cc(lag_mode='all')`: the `2 tau_max + 1` slices are one and the same
+matrix; it is symmetric and bounded for every shuffle … -/
+theorem shuffled_surrogate_entry (x : Nat → Nat → Rat) (sh : Nat → Nat → Nat) (cr t t' i j : Nat) :
+    shufSurrSq x sh cr t i j = shufSurrSq x sh cr t' i j ∧
+      shufSurrSq x sh cr t i j = shufSurrSq x sh cr t j i ∧
+      -1 ≤ shufSurrSq x sh cr t i j ∧ shufSurrSq x sh cr t i j ≤ 1 :=
+  ⟨rfl, pearson_symm _ _ _, pearson_bounded _ _ _⟩
+
+/-- … and when the whole series is used (`tau_max = 0`) a shuffle keeps mean and variance of every
+series, so the diagonal is `1` exactly for the series that are not constant -/
+theorem shuffled_surrogate_diag (x : Nat → Nat → Rat) (sh : Nat → Nat → Nat) (T t i : Nat)
+    (hsh : PermOn (sh i) T) :
+    meanTo T (fun s => x i (sh i s)) = meanTo T (x i) ∧
+      covTo T (fun s => x i (sh i s)) (fun s => x i (sh i s)) = covTo T (x i) (x i) ∧
+      shufSurrSq x sh T t i i = if covTo T (x i) (x i) = 0 then 0 else 1 := by
+  refine ⟨meanTo_perm T (x i) (sh i) hsh, covTo_perm T (x i) (x i) (sh i) hsh, ?_⟩
+  unfold shufSurrSq
+  rw [pearsonSq_perm T (x i) (x i) (sh i) hsh]
+  by_cases h : covTo T (x i) (x i) = 0
+  · rw [if_pos h]; unfold pearsonSq; simp only [h, true_or, if_true]
+  · rw [if_neg h]; exact pearson_self T (x i) h
+
+example : PermOn (fun s => [2, 0, 3, 1].getD s 0) 4 := by
+  constructor
+  · intro s hs
+    have : s = 0 ∨ s = 1 ∨ s = 2 ∨ s = 3 := by omega
+    rcases this with rfl | rfl | rfl | rfl <;> decide
+  · intro s s' hs hs'
+    have h1 : s = 0 ∨ s = 1 ∨ s = 2 ∨ s = 3 := by omega
+    have h2 : s' = 0 ∨ s' = 1 ∨ s' = 2 ∨ s' = 3 := by omega
+    rcases h1 with rfl | rfl | rfl | rfl <;> rcases h2 with rfl | rfl | rfl | rfl <;> decide
+
+/-! ## `|partial correlation| ≤ 1` (Gaussian information transfer / MI) -/
+
+/-- the recursion `pcovG` on the Gram matrix of the rows computes the inner products of the
+**residual vectors** `x -= Q Qᵀ x` (confounds projected out one after the other) -/
+theorem pcov_is_residual_product (n : Nat) (r : Nat → Nat → Rat) (zs : List Nat) (a b : Nat) :
+    pcovG (fun a b => dotTo n (r a) (r b)) zs a b = dotTo n (resid n r zs a) (resid n r zs b) :=
+  pcovG_eq_resid n r zs a b
+
+/-- **bounded**: for every data set, every list of confounds (linearly independent or not) and
+every pair, the partial correlation of the Gaussian estimators lies in `[-1, 1]` (as a signed
+square) — Cauchy–Schwarz on the residual vectors; `G` is the Gram matrix of the centred rows,
+as in `itSq` -/
+theorem parCorr_bounded (n : Nat) (r : Nat → Nat → Rat) (zs : List Nat) (a b : Nat) :
+    -1 ≤ parCorrSqG (fun a b => covTo n (r a) (r b)) zs a b ∧
+      parCorrSqG (fun a b => covTo n (r a) (r b)) zs a b ≤ 1 :=
+  parCorrSqG_bounded n (fun a k => r a k - meanTo n (r a)) zs a b
+
+example : parCorrSqG (fun a b => covTo 4 (fun k => [[1, 2, 4, 3], [2, 1, 3, 5], [0, 1, 0, 2]].getD a [] |>.getD k (0 : Rat))
+    (fun k => [[1, 2, 4, 3], [2, 1, 3, 5], [0, 1, 0, 2]].getD b [] |>.getD k (0 : Rat))) [2] 0 1 = 11 / 36 := by
+  decide +kernel
+
+/-! ## round 3: index arithmetic of the pure-Python class regenerated from the source -/
+
+open Pyunicorn.Generated.ArithC10 in
+/-- **pair loops**: `range(N - only_tri)` rows and `range((i+1)*only_tri, N)` columns of the source
+(both in `_calculate_cc` and `_calculate_mi`) are the bounds the model's `pairMat` / `pairRow` use:
+with `only_tri = 1` the strict upper triangle, with `only_tri = 0` every pair -/
+theorem arith_pair_loops (N i ot : Nat) :
+    pairRows (N : Int) (ot : Int) = (N : Int) - (ot : Int) ∧
+      pairColLo (i : Int) (ot : Int) = (((i + 1) * ot : Nat) : Int) ∧
+      pairRowsMi (N : Int) (ot : Int) = pairRows (N : Int) (ot : Int) ∧
+      pairColLoMi (i : Int) (ot : Int) = pairColLo (i : Int) (ot : Int) ∧
+      (pairColLo (i : Int) 1 ≤ (N : Int) - 1 ↔ i + 1 < N) ∧ pairColLo (i : Int) 0 = 0 := by
+  unfold pairRows pairColLo pairRowsMi pairColLoMi
+  refine ⟨rfl, by push_cast; ring, rfl, rfl, by omega, by ring⟩
+
+open Pyunicorn.Generated.ArithC10 in
+/-- **time surrogate**: the column picked for slice `t` and drawn time `p ≥ tau_max` is
+`p + (t - tau_max)` — the model's `perm s + t - tauMax` — and lies inside the data for
+`p < total_time - tau_max`, `t ≤ 2 tau_max`; the shuffled surrogate uses the window length of
+`cross_correlation` (`pureRange`); `_calculate_mi` reports the signed lag `t - tau_max` -/
+theorem arith_time_surrogate (T tauMax t p : Nat) (hp : tauMax ≤ p) (hpT : p + tauMax < T)
+    (ht : t ≤ 2 * tauMax) :
+    tsurrIdx (p : Int) (tsurrTau (t : Int) (tauMax : Int)) = ((p + t - tauMax : Nat) : Int) ∧
+      0 ≤ tsurrIdx (p : Int) (tsurrTau (t : Int) (tauMax : Int)) ∧
+      tsurrIdx (p : Int) (tsurrTau (t : Int) (tauMax : Int)) < (T : Int) ∧
+      ssurrRange (T : Int) (tauMax : Int) = pureRange (T : Int) (tauMax : Int) ∧
+      pureMiTau (t : Int) (tauMax : Int) = (t : Int) - (tauMax : Int) := by
+  unfold tsurrIdx tsurrTau ssurrRange pureRange pureMiTau
+  refine ⟨by omega, by omega, by omega, rfl, rfl⟩
 
 end Pyunicorn.Coupling
